@@ -1,11 +1,76 @@
 import StorageModel.Driver.Common
+import StorageModel.C04.Model
+import StorageModel.C04.Spec
+import StorageModel.C04.Render
 /- model driver for C04: `run spec` reads case lines on stdin and prints one output line per case
-   (spec = false: the engine model's output; spec = true: the spec's verdict). -/
-namespace StorageModel.Driver.C04
-open StorageModel.Driver
+   (spec = false: the engine model's output; spec = true: the spec's verdict).
 
-def step (_line : String) : String := "not-implemented"
-def specStep (_line : String) : String := "not-implemented"
+   case:    h|v <variant> <tx> <tx> ...     (see /verif/harness/c04.go)
+   output:  one token per transaction:  <res>#<fine>#<coarse>@<nA>,<nB>  (model)   <res>#*#<coarse>@<nA>,<nB>  (spec) -/
+namespace StorageModel.Driver.C04
+open StorageModel StorageModel.Driver StorageModel.C04
+
+def parseFV (w : String) : Option FV :=
+  if w = "~" then some none else (Bytes.ofHex w).map some
+
+def parseOp (tok : String) : Option Op :=
+  match tok.splitOn ":" with
+  | ["cb", id] => (Bytes.ofHex id).map Op.createB
+  | ["ca", id, o, b, d] => do
+    let id ← Bytes.ofHex id
+    let o ← parseFV o
+    let b ← Bytes.ofHex b
+    let d ← parseFV d
+    pure (Op.createA id { owner := o, boss := some b, dep := d })
+  | ["ua", id, m, o, b, d] => do
+    let id ← Bytes.ofHex id
+    let m ← m.toNat?
+    let o ← parseFV o
+    let b ← Bytes.ofHex b
+    let d ← parseFV d
+    let all := m ≥ 8
+    pure (Op.updateA id { owner := o, boss := some b, dep := d }
+      (all || m % 2 = 1) (all || (m / 2) % 2 = 1) (all || (m / 4) % 2 = 1))
+  | ["da", id] => (Bytes.ofHex id).map Op.deleteA
+  | ["db", id] => (Bytes.ofHex id).map Op.deleteB
+  | _ => none
+
+def parseTx (tok : String) : Option (List Op) := (tok.splitOn ",").mapM parseOp
+
+def parseVariant (w : String) : Option Schema := do
+  let v ← w.toNat?
+  if v > 7 then none
+  else pure { depCascade := v % 2 = 1, depNullable := (v / 2) % 2 = 1, depFirst := (v / 4) % 2 = 1 }
+
+def obsToken (verbose : Bool) (res : Option (Nat × Err)) (fine : Option String) (coarse : String)
+    (nA nB : Nat) : String :=
+  let enc := fun (t : String) => if verbose then "{" ++ t.replace "\n" "|" ++ "}" else hex16 (fnv64 t)
+  resToken res ++ "#" ++ (match fine with | some f => enc f | none => "*") ++ "#" ++ enc coarse ++
+    "@" ++ toString nA ++ "," ++ toString nB
+
+def runModel (verbose : Bool) (σ : Schema) (txs : List (List Op)) : List String :=
+  (txs.foldl (fun (acc : St × List String) tx =>
+    let (s', r) := runTx σ acc.1 tx
+    (s', obsToken verbose r (some (fineText s')) (coarseText s') s'.as.length s'.bs.length :: acc.2)) ({}, [])).2.reverse
+
+def runSpec (verbose : Bool) (σ : Schema) (txs : List (List Op)) : List String :=
+  (txs.foldl (fun (acc : SSt × List String) tx =>
+    let (s', r) := specRunTx σ acc.1 tx
+    (s', obsToken verbose r none (coarseText (derive s')) s'.as.length s'.bs.length :: acc.2)) ({}, [])).2.reverse
+
+def stepWith (spec : Bool) (line : String) : String :=
+  match (splitSp line).filter (· ≠ "") with
+  | kind :: v :: txs =>
+    if kind ≠ "h" ∧ kind ≠ "v" then "bad-case" else
+    match parseVariant v, txs.mapM parseTx with
+    | some σ, some txs =>
+      let out := if spec then runSpec (kind = "v") σ txs else runModel (kind = "v") σ txs
+      if out.isEmpty then "empty" else " ".intercalate out
+    | _, _ => "bad-case"
+  | _ => "bad-case"
+
+def step (line : String) : String := stepWith false line
+def specStep (line : String) : String := stepWith true line
 
 def run (spec : Bool) : IO Unit := forEachLine (if spec then specStep else step)
 
